@@ -135,8 +135,43 @@ def defocus_alias(keys):
     return claim
 
 
+def validator_alias(keys):
+    """validators.validate_aberration_coefficients: the same mapping, for every value incl. exactly 0"""
+    import quantem.core.utils.validators as val
+
+    def claim(I):
+        old = val.__dict__.get("float")
+        if I.mode == "sym":
+            val.float = lambda x: x
+        try:
+            vals = {k: I.real("v_" + k, -3, 3) for k in keys}
+            out = val.validate_aberration_coefficients(dict(vals))
+            rels = []
+            for k, v in vals.items():
+                canon = cp.POLAR_ALIASES.get(k, k)
+                rels.append(Rel(f"validator_alias[{k}->{canon}]", out[canon] if canon in out else 1e9, -v if k == "defocus" else v, ntol=1e-9))
+            rels.append(Rel("only_canonical_keys", float(all(k in cp.POLAR_SYMBOLS for k in out)), 1.0))
+            return rels
+        finally:
+            if I.mode == "sym":
+                if old is None:
+                    del val.float
+                else:
+                    val.float = old
+    return claim
+
+
+# coefficient sets that name magnitudes without their angles (the angle then defaults to 0)
+NO_ANGLE_SETS = [["C10", "C12"], ["C21"], ["C23", "C30"], ["C12", "C34", "C45"], ["C10", "C30", "C50"], ["C56", "C52"]]
+
+
 def cases(tier):
     out = []
+    for names in NO_ANGLE_SETS:
+        out.append((f"gradients[no angles:{'+'.join(names)}]", gradients(names), "QF_NRA"))
+        out.append((f"surface_vs_basis[no angles:{'+'.join(names)}]", surface_vs_basis(names), "QF_NRA"))
+    out.append(("validator_aliases[defocus,astigmatism,astigmatism_angle]", validator_alias(["defocus", "astigmatism", "astigmatism_angle"]), None))
+    out.append(("validator_aliases[coma,coma_angle,Cs,C5,C10]", validator_alias(["coma", "coma_angle", "Cs", "C5", "C12"]), None))
     for n, names in ORDERS.items():
         out.append((f"surface_vs_basis[order{n}]", surface_vs_basis(names), "QF_NRA"))
         out.append((f"gradients[order{n}]", gradients(names), "QF_NRA"))
@@ -161,14 +196,15 @@ for _n, _c, _ in cases("thorough"):
 def run(check, tier):
     check.add_functions("complex_probe.aberration_surface", "aberration_surface_polar_gradients", "aberration_surface_cartesian_gradients",
                         "aberration_surface_cartesian_basis", "polar_to_cartesian_aberrations", "cartesian_to_polar_aberrations",
-                        "merge_aberration_coefficients", "parse_cartesian_aberration_label", "standardize_aberration_coefs")
+                        "merge_aberration_coefficients", "parse_cartesian_aberration_label", "standardize_aberration_coefs",
+                        "validators.validate_aberration_coefficients")
     check.bounds.update(symbolic="alpha >= 0, phi (angle atom), wavelength > 0, all 25 polar symbols (13 magnitudes in [-3,3], 12 angles)",
                         orders="1..5 separately and all 25 symbols together")
     check.assumptions += ["real arithmetic (float32 rounding of torch.tensor(v, float32) is outside)",
                           "cos/sin of integer combinations of angle atoms are expanded exactly (Chebyshev); atan2 is a fresh angle "
                           "with r cos = x, r sin = y"]
-    check.outside += ["fit_aberrations_from_shifts (LAPACK lstsq / SVD)", "validators.validate_aberration_coefficients and the "
-                      "ProbeBase.probe_params setter (not reached by this check)", "_return_lateral_shifts"]
+    check.outside += ["fit_aberrations_from_shifts (LAPACK lstsq / SVD)", "the ProbeBase.probe_params setter (not reached by this check)",
+                      "_return_lateral_shifts"]
     check.engines.add("symnum + z3 " + __import__("z3").get_version_string())
     decide_many(check, [(n, c, dict(logic=lg, key=n.split("[")[0])) for n, c, lg in cases(tier)],
                 timeout_s=120 if tier == "quick" else 600, validate=1 if tier == "quick" else 3)
